@@ -156,7 +156,7 @@ func Run(file *paths.Path, profile string) (string, error) {
 		})
 		for _, match := range matches {
 			opt := NewOption(file, match)
-			if !strings.Contains(profile, opt.Raw) {
+			if !opt.regRaw().MatchString(profile) {
 				// Removed by an earlier directive (a guarded paragraph)
 				continue
 			}
